@@ -36,9 +36,31 @@ type jobResult struct {
 	Wall           float64  `json:"wall_s"`
 	FaultPositions int      `json:"fault_positions,omitempty"`
 	Err            string   `json:"error,omitempty"`
+	ReductionOff   string   `json:"visibility_reduction_off,omitempty"`
 }
 
+// runJob explores one scenario. The visibility reduction (descriptor I/O on a process's own temporary and
+// lock files is not a scheduling point) rests on an assumption that is checked at run time: nobody reads
+// another process's *.reftmp or *.lock. If the code under test does, the scenario is explored again with
+// EVERY filesystem call as a scheduling point, preemption-bounded (at most 2) because that space is much
+// larger; the result says so.
 func runJob(prop string, sc *scenario, budget time.Duration, detCheck int) *jobResult {
+	res := runJobOnce(prop, sc, budget, detCheck)
+	if strings.Contains(res.Err, "reduction assumption broken") && !sc.allVisible {
+		c := *sc
+		c.allVisible = true
+		if c.Preempt < 0 || c.Preempt > 2 {
+			c.Preempt = 2
+		}
+		why := res.Err
+		res = runJobOnce(prop, &c, budget, detCheck)
+		res.ReductionOff = why
+		res.Exhaustive = false
+	}
+	return res
+}
+
+func runJobOnce(prop string, sc *scenario, budget time.Duration, detCheck int) *jobResult {
 	res := &jobResult{Scenario: sc.Name, Why: sc.Why, Procs: len(sc.Procs)}
 	start := time.Now()
 	var e *mc.Explorer
@@ -276,7 +298,7 @@ func main() {
 			"executions": r.Stats.Executions, "states": r.Stats.States, "transitions": r.Stats.Transitions,
 			"completed_executions": r.Stats.Completed, "cut_at_visited_state": r.Stats.Cuts, "max_choice_points": r.Stats.MaxDepth,
 			"distinct_outcomes": r.Outcomes, "horizon_hits": r.Stats.HorizonHits, "cap_hit": r.Stats.CapHit,
-			"exhaustive_within_bound": r.Exhaustive, "wall_s": r.Wall, "violating_signatures": len(r.Stats.Violations),
+			"exhaustive_within_bound": r.Exhaustive, "wall_s": r.Wall, "violating_signatures": len(r.Stats.Violations), "visibility_reduction_off": r.ReductionOff,
 		})
 		if len(r.Sample) > 0 && len(samples) < 6 {
 			samples = append(samples, map[string]interface{}{"scenario": r.Scenario, "schedule": strings.Join(r.Sample, " "), "an_outcome": r.SampleOut})
